@@ -128,12 +128,16 @@ func c12Stmt(k int) ref.Node {
 		return rcall("f", rnum(7), rnum(8), rnum(9))
 	case 12:
 		return rpath(rname("b"), rcall("f", rnum(6))) // called under another context item
-	default:
+	case 13:
 		return rassign("x", rcall("f", rnum(5)))
+	case 14:
+		return rassign("f", rlambda(rassign("x", rnum(2)))) // no parameters, the body is a bare assignment: it binds in the call's own frame
+	default:
+		return rassign("f", rlambda(rassign("y", rvar("p")), "p")) // the same with a parameter
 	}
 }
 
-const c12NumStmts = 14
+const c12NumStmts = 16
 
 var c12Closures = []func() ref.Node{
 	// a function returned from a block keeps the block's bindings
